@@ -340,7 +340,7 @@ PURE_EXTERNAL.update({
 SAFE_METHODS = {
     str: {"format", "join", "strip", "rstrip", "lstrip", "split", "splitlines", "replace", "startswith", "endswith", "lower", "upper", "partition",
           "rpartition", "center", "ljust", "rjust", "encode", "isdigit", "count", "find", "title", "removeprefix", "removesuffix", "rsplit", "zfill", "casefold",
-          "isidentifier", "isalpha", "isalnum", "isspace", "format_map", "expandtabs", "capitalize", "swapcase", "rfind", "index", "rindex",
+          "isidentifier", "isalpha", "isalnum", "isspace", "isprintable", "isascii", "isnumeric", "isdecimal", "islower", "isupper", "istitle", "format_map", "expandtabs", "capitalize", "swapcase", "rfind", "index", "rindex",
           "__contains__", "__getitem__", "__len__", "__add__", "__mod__", "__eq__", "__ne__", "__lt__", "__le__", "__gt__", "__ge__"},
     list: {"append", "extend", "copy", "index", "count", "insert", "pop", "sort", "reverse", "clear", "remove", "__contains__", "__getitem__", "__setitem__", "__delitem__",
            "__len__", "__iter__", "__add__", "__eq__"},
@@ -533,6 +533,22 @@ class PureInterp:
         if depth == 0:
             _ACTIVE_INTERP[0] = self
         kwargs = dict(kwargs or {})
+        if not _raw and closure is None and getattr(finfo.node, "decorator_list", None) and self_obj is None:
+            # a module-level function under functools.lru_cache / cache: one table per process (= per interpreter), keyed by the arguments alone
+            for d in finfo.node.decorator_list:
+                dc = d.func if isinstance(d, ast.Call) else d
+                cn = self.index.canon(dc, finfo.module) if isinstance(dc, (ast.Name, ast.Attribute)) else None
+                if cn in ("functools.lru_cache", "functools.cache"):
+                    table = self.__dict__.setdefault("_lru_tables", {}).setdefault(finfo.key, {})
+                    try:
+                        key = (tuple(args), tuple(sorted(kwargs.items())))
+                        hash(key)
+                    except TypeError:
+                        break
+                    if key in table:
+                        return table[key]
+                    table[key] = self.call(finfo, args, kwargs, self_obj, depth, closure, _raw=True)
+                    return table[key]
         if not _raw and closure is None and getattr(finfo.node, "decorator_list", None):
             wrapped = self._repo_decorated(finfo, depth)
             if wrapped is not None:
